@@ -225,10 +225,6 @@ theorem scan_usable_implies_spendable (P : Params) (hP : ParamsOK P) (chain : Li
 
 /-! ### the full statement fails: restored outputs (F15) -/
 
-def tipHeight : List Block → Nat
-  | [] => 0
-  | b :: _ => b.height
-
 /-- pushes extend the tip by one height with the right parent (genesis: parent 0, height 0) -/
 def Linked : List Step → List Block → Prop
   | [], _ => True
